@@ -51,6 +51,11 @@ class C10(Prop):
             rule = rng.choice(V.RULES); k = rng.randint(1, m + 1)
             yield self.mk("random", rule, rng.choice(["score", "scf", "swf"]), P, k, rng.random() < .5, tb=rng.choice(V.TBS),
                           dtype=rng.choice(["int64", "int32", "float"]))
+        # many alternatives (beyond the range of small integer types: per-voter points up to m - 1)
+        for i in range(10 if tier == "quick" else 120):
+            n = rng.randint(1, 3); m = rng.choice([129, 130, 200, 257, 300])
+            yield self.mk("wide", V.RULES[i % 5], ["score", "scf", "swf"][i % 3], V.rand_profile(rng, n, m), rng.randint(1, m), bool(i % 2), tb=V.TBS[i % 3],
+                          dtype=["int64", "int32", "float"][i % 3])
         # large electorates decided by one vote (ballots with multiplicities), with a differently sized profile fed to the same rule object first
         for i in range(40 if tier == "quick" else 400):
             m = rng.randint(2, 4); base = rng.choice([1000, 70000, 150000, 300000])
